@@ -115,7 +115,9 @@ pub fn record(rng: &mut SmallRng, n_events: usize, out: &mut dyn Write) {
         let ty = TYS[rng.gen_range(0..TYS.len())];
         let mut st = String::new();
         if rng.gen_bool(0.4) { st.push('-'); }
-        for _ in 0..rng.gen_range(0..3) { st.push('0'); }
+        // leading zeros: a few; rarely 38..45 or 254..300 of them (digit counters / length cut-offs)
+        let zeros = match rng.gen_range(0..30) { 0 => rng.gen_range(38..46), 1 => [254, 255, 256, 257, 300][rng.gen_range(0..5)], _ => rng.gen_range(0..3) };
+        for _ in 0..zeros { st.push('0'); }
         match rng.gen_range(0..3) {
             0 => { for _ in 0..rng.gen_range(0..45) { st.push((b'0' + rng.gen_range(0..10)) as char); } }
             1 => {
